@@ -57,7 +57,7 @@ class Gen:
             return Group(Or(Group(e()), Group(e())))
         if k == "cond":
             op = r.choice(["eq", "ne", "match", "nomatch"])
-            rhs = Str(r.choice(["a", "b", "x", "ab", "zz"])) if op in ("match", "nomatch") else Group(e())
+            rhs = Str(r.choice(["a", "b", "x", "ab", "zz", "", ""])) if op in ("match", "nomatch") else Group(e())
             return Cond(Group(e()), op, rhs, e(), e())
         if k == "assert":
             a = e()
